@@ -573,7 +573,7 @@ func runC03(r *vf.Runner) {
 			}
 		}
 		rec(nil)
-		for i, sc := range scripts {
+		for _, sc := range scripts {
 			c := c03case{Roots: sh.roots, Roots2: sh.roots2, Script: sc}
 			for _, st := range sh.stages {
 				c.Stages = append(c.Stages, c03stage{Shards: st.Shards, Deps: st.Deps, Shuffle: st.Shuffle})
